@@ -400,6 +400,9 @@ func Main() {
 		if len(os.Args) > 3 {
 			tier = os.Args[3]
 		}
+		if os.Getenv("VERIF_CHILD") == "" && os.Getenv("VERIF_KEYS_ONLY") == "" {
+			os.Exit(guardedRun(p, tier))
+		}
 		os.Exit(runCheck(p, tier))
 	case "worker":
 		tier := os.Args[3]
@@ -464,6 +467,63 @@ func limitAddressSpace() {
 	syscall.Setrlimit(syscall.RLIMIT_AS, &syscall.Rlimit{Cur: lim, Max: cur.Max})
 }
 
+// guardedRun runs the check in a child process. Several checks execute the
+// implementation inside the coordinating process; a modification of the
+// implementation that makes the Go runtime abort there (stack exhaustion,
+// concurrent map access through state shared behind the API, ...) would
+// otherwise end the check without a verdict. If the child is killed by the
+// runtime, it is run once more; if it dies again, that is reported as a
+// violation whose replay artefact is the run itself.
+func guardedRun(p *Prop, tier string) int {
+	self, err := os.Executable()
+	if err != nil {
+		return runCheck(p, tier)
+	}
+	run := func() (code int, death string) {
+		cmd := exec.Command(self, "run", p.ID, tier)
+		cmd.Env = append(os.Environ(), "VERIF_CHILD=1")
+		cmd.Stdout = os.Stdout
+		var errb bytes.Buffer
+		cmd.Stderr = &errb
+		runErr := cmd.Run()
+		es := errb.String()
+		code = 0
+		if cmd.ProcessState != nil {
+			code = cmd.ProcessState.ExitCode()
+		}
+		if runErr == nil || code == 1 || strings.Contains(es, "HARNESS-ERROR") {
+			os.Stderr.WriteString(es)
+			return code, ""
+		}
+		for _, marker := range []string{"fatal error:", "panic:", "goroutine stack exceeds", "signal:"} {
+			if i := strings.Index(es, marker); i >= 0 {
+				os.Stderr.WriteString(tail(es, 3000))
+				return code, oneLine(es[i:min(len(es), i+300)], 300)
+			}
+		}
+		os.Stderr.WriteString(es)
+		return code, ""
+	}
+	code, death := run()
+	if death == "" {
+		return code
+	}
+	fmt.Fprintf(os.Stderr, "%s: the checking process was killed by the Go runtime (%s); running it once more\n", p.ID, death)
+	_, death2 := run()
+	if death2 == "" {
+		fmt.Fprintf(os.Stderr, "HARNESS-ERROR: the checking process died once (%s) but not when run again\n", death)
+		return 2
+	}
+	os.MkdirAll(filepath.Join(OutDir(), "replays"), 0o755)
+	path := filepath.Join(OutDir(), "replays", p.ID+"-process-death.json")
+	v := Viol{Key: "process-death:" + death2, What: "the process that exercises the implementation was killed by the Go runtime, twice in two runs: " + death + " | " + death2 + " (replay: run the check again)"}
+	b, _ := json.MarshalIndent(v, "", " ")
+	os.WriteFile(path, b, 0o644)
+	fmt.Printf("  %s: %s\n", v.Key, oneLine(v.What, 600))
+	fmt.Printf("VIOLATION property=%s replay=%s\n", p.ID, path)
+	return 1
+}
+
 func runCheck(p *Prop, tier string) int {
 	start := time.Now()
 	c := &Ctx{ID: p.ID, Tier: tier, Seed: seed(), NShards: 1, Deadline: start.Add(budget(p, tier))}
@@ -506,7 +566,16 @@ func runCheck(p *Prop, tier string) int {
 		}
 		return Finding{}, false
 	}
+	if os.Getenv("VERIF_KEYS_ONLY") != "" {
+		// child of the whole-run reproduction below: list the violating keys, nothing else
+		for _, v := range viols {
+			fmt.Printf("VIOLATIONKEY %s\n", v.Key)
+		}
+		return 0
+	}
 	nviol, nknown, unreported := 0, 0, 0
+	var wholeRuns []map[string]bool
+	var unstable []string
 	const maxReported = 24
 	self, _ := os.Executable()
 	var knownHit []string
@@ -517,7 +586,7 @@ func runCheck(p *Prop, tier string) int {
 			nknown++
 			continue
 		}
-		if nviol >= maxReported {
+		if nviol >= maxReported || len(unstable) >= 12 {
 			// enough to fail the check; the rest is counted, not re-executed
 			unreported++
 			continue
@@ -544,14 +613,47 @@ func runCheck(p *Prop, tier string) int {
 				}
 			}
 			if repro != tries {
-				fmt.Fprintf(os.Stderr, "HARNESS-ERROR: case %q reproduced %d/%d times from %s: %s\n", v.Key, repro, tries, path, v.What)
-				writeEvidence(p, c, st, start, nviol, knownHit, []string{"nondeterministic harness result for " + v.Key})
-				return 2
+				// The case alone does not show it. It may depend on state that the
+				// implementation carries from earlier cases of the same run (a
+				// process-wide cache, say): the whole run, whose enumeration order is
+				// fixed, is then the replayable artefact. Two fresh whole runs (made
+				// once, shared by all such cases) must both report the same key;
+				// otherwise the case is set aside as unstable: it is never reported,
+				// and if nothing else is left to report the run ends as a harness error.
+				if wholeRuns == nil {
+					for i := 0; i < 2; i++ {
+						cmd := exec.Command(self, "run", p.ID, tier)
+						cmd.Env = append(os.Environ(), "VERIF_KEYS_ONLY=1", "VERIF_CHILD=1")
+						out, _ := cmd.Output()
+						keys := map[string]bool{}
+						for _, l := range strings.Split(string(out), "\n") {
+							if strings.HasPrefix(l, "VIOLATIONKEY ") {
+								keys[strings.TrimPrefix(l, "VIOLATIONKEY ")] = true
+							}
+						}
+						wholeRuns = append(wholeRuns, keys)
+					}
+				}
+				if !(wholeRuns[0][v.Key] && wholeRuns[1][v.Key]) {
+					unstable = append(unstable, fmt.Sprintf("%s (reproduced %d/%d times from %s, not in both whole runs)", v.Key, repro, tries, path))
+					continue
+				}
+				v.What += " [does not reproduce from this case alone: it depends on state carried over from earlier cases of the run; reproduced by two further whole runs (" + self + " run " + p.ID + " " + tier + ")]"
+				b, _ := json.MarshalIndent(v, "", " ")
+				os.WriteFile(path, b, 0o644)
 			}
 		}
 		fmt.Printf("  %s: %s\n", v.Key, oneLine(v.What, 600))
 		fmt.Printf("VIOLATION property=%s replay=%s\n", p.ID, path)
 		nviol++
+	}
+	if len(unstable) > 0 && nviol == 0 {
+		fmt.Fprintf(os.Stderr, "HARNESS-ERROR: %d violating case(s) did not reproduce, e.g. %s\n", len(unstable), unstable[0])
+		writeEvidence(p, c, st, start, nviol, knownHit, []string{"results that did not reproduce: " + strings.Join(unstable, "; ")})
+		return 2
+	}
+	if len(unstable) > 0 {
+		st.Notes = append(st.Notes, fmt.Sprintf("%d further violating cases did not reproduce and are not reported: %s", len(unstable), strings.Join(unstable, "; ")))
 	}
 	if unreported > 0 {
 		fmt.Printf("  ... and %d further violating cases (not re-executed, not listed)\n", unreported)
